@@ -232,6 +232,12 @@ def mirror_step(m, op):
             return 'skip'
         l['a' if op['which'] == 'start' else 'b'] = op['node']
         return 'ok'
+    if k == 'reverse_link':
+        l = m.links.get(op['link'])
+        if l is None:
+            return 'skip'
+        l['a'], l['b'] = l['b'], l['a']
+        return 'ok'
     if k == 'set_ref':
         kind, val = op['kind'], op.get('value')
         if kind == 'speed_pattern':
@@ -307,9 +313,9 @@ def mirror_step(m, op):
             if names[0] in m.controls or names[1] in m.controls:
                 return 'skip'        # a second add_leak without remove_leak is refused by add_control (duplicate name)
             if op.get('start') is not None:
-                m.controls[names[0]] = {'kind': 'simple', 'requires': set([('n', op['node'])])}
+                m.controls[names[0]] = {'kind': 'simple', 'requires': set([('n', op['node'])]), 'leak': True}
             if op.get('end') is not None:
-                m.controls[names[1]] = {'kind': 'simple', 'requires': set([('n', op['node'])])}
+                m.controls[names[1]] = {'kind': 'simple', 'requires': set([('n', op['node'])]), 'leak': True}
         else:
             m.controls.pop(names[0], None)
             m.controls.pop(names[1], None)
@@ -415,6 +421,9 @@ def real_step(wn, op):
             l.start_node = wn.get_node(op['node'])
         else:
             l.end_node = wn.get_node(op['node'])
+    elif k == 'reverse_link':
+        import wntr.morph.link as _ml
+        _ml.reverse_link(wn, op['link'], return_copy=False)
     elif k == 'set_ref':
         kind, val = op['kind'], op.get('value')
         if kind == 'speed_pattern':
@@ -671,6 +680,10 @@ def persist(wn, how, scratch, units='LPS', version=2.2):
 
 def rename_after_restart(m, how):
     """names the persistence formats do not keep: simple controls are renamed 'control <k>' (dict/JSON/INP), sources 'INP<k>' (INP)"""
+    if how == 'inp':
+        # the INP format has no place for leaks: their start/end controls are not written
+        for name in [n_ for n_, c_ in m.controls.items() if c_.get('leak')]:
+            del m.controls[name]
     if how in ('dict', 'json', 'inp'):
         new = OrderedDict()
         k = 0
